@@ -86,6 +86,8 @@ def pairs(ctx, n):
     rng = ctx.rng
     for _ in range(n):
         case = core.gen_election(rng, m_lo=1, m_hi=6)
+        if rng.random() < 0.2:
+            case = core.gen_big_election(rng, btypes=("app", "app", "card", "ord"), m=(6, 8))
         cfg = rulegen.gen_rule_cfg(rng, case, rules=("greedy",), allow_refuse=False)
         if cfg["sat"] in ("Cost_Log_Sat", "Cost_Sqrt_Sat", "CC_Sat") and len(case.projects) > 5:
             cfg["res"] = True
